@@ -9,7 +9,7 @@ for p in props:
         t=m.get('needs','').split('\n')[0]
         t=re.sub(r'^#\s*(Change|Mutant|Mutation|Bug|Seeded bug)?\s*\d*\s*[-:]*\s*','',t).split('  - Site')[0].strip()
         if t: used.append(t[:150])
-    wt='/tmp/wt8_%s'%pid; out='/tmp/mut8_out_%s'%pid
+    import os as _o; R=_o.environ.get('ROUND','8'); wt='/tmp/wt%s_%s'%(R,pid); out='/tmp/mut%s_out_%s'%(R,pid)
     txt=f"""You are helping to measure how good a (hidden) verification harness is. Your job is FAULT SEEDING in a scratch copy of the
 Python/Cython package cherab-core (plasma spectroscopy on top of raysect). You do NOT have access to the harness and must not look for it:
 work only inside your own scratch git worktree {wt} (a worktree of the repository with the compiled extensions already in place).
@@ -50,5 +50,5 @@ Deliver into the directory {out} (create it): patch1.diff, demo1.py, notes1.md, 
 "# Change <k> - <one-line title>", then Site, Why it breaks the property, What it needs in order to manifest, What you ran (commands and
 their outcomes). Leave the worktree clean (git checkout -- .) and rebuilt at the end. Final answer: a 5-line summary per change.
 """
-    open('/tmp/r8/prompt_%s.txt'%pid,'w').write(txt)
+    open('/tmp/r%s/prompt_%s.txt'%(R,pid),'w').write(txt)
 print('ok')
